@@ -199,3 +199,69 @@ Proof.
       - destruct L as [L _]. rewrite L. apply N.eqb_refl. }
     rewrite E. reflexivity.
 Qed.
+
+(* ------------------------------------------------------------------ boolean checkers of the hypotheses
+   (used to show by computation that concrete histories satisfy them) *)
+
+Definition op_okb (P : params) (st : wstate) (o : op) : bool :=
+  match o with
+  | OAttach b => negb (N.eqb (b_prev b) (tip_id st)) || negb (is_none (cscan P (b :: wchain st)))
+  | ODetach => true
+  end.
+
+Lemma op_okb_ok P st o : op_okb P st o = true -> op_ok P st o.
+Proof.
+  destruct o as [b|]; cbn [op_okb op_ok]; auto.
+  intros H E. rewrite E in H. cbn [negb orb] in H.
+  destruct (cscan P (b :: wchain st)); [discriminate|discriminate].
+Qed.
+
+Fixpoint hist_okb (I : impl) (P : params) (st : wstate) (ops : list op) : bool :=
+  match ops with
+  | [] => true
+  | o :: r => op_okb P st o && hist_okb I P (wstep I P st o) r
+  end.
+
+Lemma hist_okb_ok I P ops : forall st, hist_okb I P st ops = true -> hist_ok I P st ops.
+Proof.
+  induction ops as [|o ops IH]; intros st; cbn [hist_okb hist_ok]; auto.
+  intros H. apply andb_true_iff in H as [H1 H2]. split; [apply op_okb_ok; exact H1|apply IH; exact H2].
+Qed.
+
+Fixpoint walk_okb (I : impl) (P : params) (fuel : nat) (main : list block) (st : wstate) : bool :=
+  match fuel with
+  | O => true
+  | S f =>
+    match walk_step main st with
+    | Some o => op_okb P st o && walk_okb I P f main (wstep I P st o)
+    | None => true
+    end
+  end.
+
+Lemma walk_okb_ok I P fuel main : forall st, walk_okb I P fuel main st = true -> walk_ok I P fuel main st.
+Proof.
+  induction fuel as [|f IH]; intros st; cbn [walk_okb walk_ok]; auto.
+  destruct (walk_step main st) as [o|]; auto.
+  intros H. apply andb_true_iff in H as [H1 H2]. split; [apply op_okb_ok; exact H1|apply IH; exact H2].
+Qed.
+
+Definition deliver_okb (I : impl) (P : params) (s : sys) (k : nat) (news : list block) : bool :=
+  let main := new_main (s_main s) k news in
+  if tip_height (wchain (s_w s)) <? tip_height main
+  then walk_okb I P (length main + length (wchain (s_w s)) + 1) main (s_w s)
+  else true.
+
+Fixpoint sys_okb (I : impl) (P : params) (s : sys) (ds : list (nat * list block)) : bool :=
+  match ds with
+  | [] => true
+  | (k, news) :: r => deliver_okb I P s k news && sys_okb I P (deliver I P s k news) r
+  end.
+
+Lemma sys_okb_ok I P ds : forall s, sys_okb I P s ds = true -> sys_ok I P s ds.
+Proof.
+  induction ds as [|[k news] ds IH]; intros s; cbn [sys_okb sys_ok]; auto.
+  intros H. apply andb_true_iff in H as [H1 H2]. split; [|apply IH; exact H2].
+  unfold deliver_okb in H1. unfold deliver_ok. cbv zeta in *.
+  destruct (tip_height (wchain (s_w s)) <? tip_height (new_main (s_main s) k news)); auto.
+  apply walk_okb_ok. exact H1.
+Qed.
